@@ -51,7 +51,7 @@ def gen(rng, tier):
         c['family'] = 'cr'
         out.append(c)
     for i in range(n // 8):
-        c = S.gen_bnd(rng)
+        c = S.gen_bnd(rng, under=(i % 2 == 0))     # every other file: species names with underscores, one the prefix of another
         c['family'] = 'bnd'
         c['kind'] = 'bnd'
         out.append(c)
